@@ -28,7 +28,7 @@ def earlyPc : PC → Bool
 
 /-- the call path of `_send_and_receive` -/
 def plain : PC → Bool
-  | .idle | .incStore | .hdrLoad | .acquire | .actLoad | .ssLoad | .ssStore | .ssChk | .ssWrap | .ssHdr _
+  | .idle | .incStore | .hdrLoad | .acquire | .lkLoad | .lkStore | .lkHdr | .actLoad | .ssLoad | .ssStore | .ssChk | .ssWrap | .ssHdr _
   | .send | .recv | .requeue | .release => true
   | _ => false
 
@@ -322,6 +322,23 @@ theorem stepThr_tear {s s' : Sys} {t : Nat} {th : Thr} (ht : Tear s) (hget : s.t
     (h : stepThr s t th = some s') : Tear s' := by
   cases hpc : th.pc with
   | idle =>
+    cases hsl : s.seqLocked with
+    | false =>
+      simp [stepThr, hpc, hsl] at h; subst h
+      exact tear_plain ht hget rfl rfl rfl rfl rfl (by simp [hpc]) rfl rfl rfl rfl (by simp [hpc, noTx])
+    | true =>
+      cases hl : s.lock with
+      | some x => simp [stepThr, hpc, hsl, hl] at h
+      | none =>
+        simp [stepThr, hpc, hsl, hl] at h; subst h
+        exact tear_plain ht hget rfl rfl rfl rfl rfl (by simp [hpc]) rfl rfl rfl rfl (by simp [hpc, noTx])
+  | lkLoad =>
+    simp [stepThr, hpc] at h; subst h
+    exact tear_plain ht hget rfl rfl rfl rfl rfl (by simp [hpc]) rfl rfl rfl rfl (by simp [hpc, noTx])
+  | lkStore =>
+    simp [stepThr, hpc] at h; subst h
+    exact tear_plain ht hget rfl rfl rfl rfl rfl (by simp [hpc]) rfl rfl rfl rfl (by simp [hpc, noTx])
+  | lkHdr =>
     simp [stepThr, hpc] at h; subst h
     exact tear_plain ht hget rfl rfl rfl rfl rfl (by simp [hpc]) rfl rfl rfl rfl (by simp [hpc, noTx])
   | incStore =>
